@@ -39,7 +39,14 @@ struct Pipe {
     /// everything ever written (kept when `record` is set), for byte-exact oracles
     record: bool,
     log: Vec<u8>,
+    /// a writer that keeps writing while nobody reads must not eat the machine: beyond this
+    /// many buffered bytes the write fails and `overflowed` is set
+    overflowed: bool,
 }
+
+/// Largest amount of unread data a pipe will hold (the biggest legitimate messages in the
+/// harnesses are 32 MiB).
+pub const PIPE_LIMIT: usize = 256 << 20;
 
 impl Pipe {
     fn wake_reader(&mut self) {
@@ -162,6 +169,10 @@ impl Dir {
     pub fn reader_dropped(&self) -> bool {
         self.p.lock().unwrap().reader_dropped
     }
+    /// the writer ran away (kept writing far beyond anything the harness expects)
+    pub fn overflowed(&self) -> bool {
+        self.p.lock().unwrap().overflowed
+    }
     pub fn record(&self, on: bool) {
         self.p.lock().unwrap().record = on;
     }
@@ -210,6 +221,10 @@ impl AsyncWrite for End {
         }
         if data.is_empty() {
             return Poll::Ready(Ok(0));
+        }
+        if g.buf.len() > PIPE_LIMIT {
+            g.overflowed = true;
+            return Poll::Ready(Err(io::Error::other("memstream: unread data exceeds the pipe limit (runaway writer)")));
         }
         let mut n = data.len();
         if g.write_chunk > 0 {
